@@ -680,6 +680,10 @@ class Function(object):
         # Verify point is a Point
         assert isinstance(point, Point)
 
+        # Leaf functions whose weight is (or cancels to) zero do not take part in the oracle
+        if not self._is_leaf:
+            self.decomposition_dict = prune_dict(self.decomposition_dict)
+
         # If those values already exist, simply return them.
         # If not, instantiate them before returning.
         # Note if the non-differentiable case, the gradient is recomputed anyway.
